@@ -32,7 +32,7 @@ the model keeps following the code so that the harness' retention monitor finds 
 A situation in which the Go code would panic (index out of range, nil dereference) is the explicit
 outcome `none`, never totalised away.
 -/
-namespace Juniper.Model.BTreeSlots
+namespace Juniper.Model.BTreeSlotsOps
 open Juniper.Gen
 
 /-- one fixed array of a node: `none` = the zero value -/
@@ -694,4 +694,4 @@ def live (h : Heap K V) : List Nat := (walk h (h.nodes.size * (childrenCap + 1) 
 
 end Heap
 
-end Juniper.Model.BTreeSlots
+end Juniper.Model.BTreeSlotsOps
